@@ -88,6 +88,21 @@ def run_impl(case, mode):
         r1 = numpy.asarray(w.rdm('i^ j'))
         res['rdm1'] = [[float(z.real), float(z.imag)] for z in r1.reshape(-1)]
         return res
+    if case['kind'] == 'paths_set':
+        # the sector-linking annihilation maps of a graph set, for every difference of electron numbers it can hold
+        from fqe import fci_graph_set
+        n = case['norb']
+        params = [[k, k, n] for k in range(n + 1)]
+        gs = fci_graph_set.FciGraphSet(2 * n, 2 * n, params)
+        out = {}
+        for k in range(n + 1):
+            g = gs._dataset[(k, 0)]
+            for (dna, dnb), (amap, bmap) in g._fci_map.items():
+                out['%d:%d,%d:a' % (k, dna, dnb)] = {','.join(str(int(x)) for x in key): sorted([[int(a), int(b), int(c)] for a, b, c in v])
+                                                    for key, v in amap.items()}
+                out['%d:%d,%d:b' % (k, dna, dnb)] = {','.join(str(int(x)) for x in key): sorted([[int(a), int(b), int(c)] for a, b, c in v])
+                                                    for key, v in bmap.items()}
+        return {'fci_map': out}
     if case['kind'] == 'direct':
         from openfermion import FermionOperator
         norb, na, nb = case['norb'], case['na'], case['nb']
@@ -158,7 +173,27 @@ def extra_checks(bdir, model, rng, tier, stats):
                 if d > 1e-9 or len(a[key]) != len(b[key]):
                     out.append(('%s differs between the C and the Python path on %s by %.3g' % (key, where, d),
                                 {'property': PID, 'case': c, 'quantity': key}, None))
-    _COV['path_pairs'] = len(cases)
+    # sector-linking maps of graph sets (differences of 1 .. norb electrons): only differences <= 2 are used by the
+    # library's own kernels, all of them are public through FciGraphSet / find_mapping
+    scases = [{'kind': 'paths_set', 'norb': n} for n in ((4, 5) if tier == 'quick' else (3, 4, 5, 6, 7))]
+    sc = core.run_impl(bdir, 'c04', scases, 'C', timeout=1500)
+    sp = core.run_impl(bdir, 'c04', scases, 'PY0', timeout=1500)
+    for c, a, b in zip(scases, sc, sp):
+        stats['evaluations'] += 2
+        if not a or not b or 'fci_map' not in a or 'fci_map' not in b:
+            out.append(('one path failed on the graph set of %d orbitals: C %s / Python %s' % (c['norb'], str(a)[:150], str(b)[:150]),
+                        {'property': PID, 'case': c, 'C': a, 'PY0': b}, None))
+            continue
+        diff = sorted(k for k in set(a['fci_map']) | set(b['fci_map']) if a['fci_map'].get(k) != b['fci_map'].get(k))
+        if diff:
+            k0 = diff[0]
+            ka = a['fci_map'].get(k0, {})
+            kb = b['fci_map'].get(k0, {})
+            ops = sorted(o for o in set(ka) | set(kb) if ka.get(o) != kb.get(o))
+            out.append(('sector-linking map (electrons:dn_alpha,dn_beta:spin) %s differs between the C and the Python path on %d orbitals '
+                        '(%d maps differ), operators %s: C %s / Python %s' % (k0, c['norb'], len(diff), ops[0], str(ka.get(ops[0]))[:90], str(kb.get(ops[0]))[:90]),
+                        {'property': PID, 'case': c, 'map': k0, 'how': 'run harness/props/c04.py:run_impl(case) under modes C and PY0'}, None))
+    _COV['path_pairs'] = len(cases) + len(scases)
     return out[:6]
 
 
